@@ -54,7 +54,8 @@ func (d *slidingWindowDetector) Check(seq uint64) (func() bool, bool) {
 	}
 
 	return func() bool {
-		latest := seq == 0
+		// Sequence number 0 is the newest only as the very first accepted number.
+		latest := seq == 0 && d.latestSeq == 0
 		if seq > d.latestSeq {
 			// Update the head of the window.
 			d.mask.Lsh(uint(seq - d.latestSeq))
